@@ -26,6 +26,8 @@ from harness.wire import LexError
 
 PROP = "C08"
 LEVEL = "exploration"
+TECHNIQUE = 'independent block grammar on every payload + exact-rational value routing + icontract postcondition on DefaultFormatter.number for every number formatted'
+LEVEL_TEXT = 'Held on number classes x decimal_places 0..12 x relabelling x comment styles x line endings x every emitting command.'
 RULE = ("per case one formatter configuration (decimal_places 0..12, axis relabelling, comment style, "
         "line ending) and 30-40 emitting commands covering every builder command, numeric arguments from "
         "the classes {+-0, subnormal, 1 ulp around k*10^-dp, 1 ulp around rounding ties, 10^k and 10^k+-ulp "
